@@ -88,6 +88,13 @@ def rule_Q2(ctx: Ctx) -> None:
     f, v = single("mazes")
     ok = X.same_expr(v, "list(itertools.chain.from_iterable(dataset.mazes for dataset in self.maze_datasets))", "list(itertools.chain.from_iterable([dataset.mazes for dataset in self.maze_datasets]))")
     ctx.judge(f, ok, {"returns": X.U(v)}, "the flattened maze list chains the members' mazes in member order", "the flattened list is ordered differently from indexing")
+    # the index tables are recomputed from the members on every access (plain properties); only `mazes` is cached (tabulated: as in the pinned tree)
+    for nm in ("dataset_lengths", "dataset_cum_lengths"):
+        fn = ctx.index.func(f"{C}.{nm}")
+        kinds = [d.name.rsplit(".", 1)[-1] for d in fn.decorators]
+        ctx.judge(fn, kinds == ["property"], {"decorators": kinds},
+                  "lengths and cumulative lengths are plain properties derived from the current members (len(), indexing and lengths cannot disagree after a member changes)",
+                  "a cached table goes stale when a member dataset changes (filters, update_self_config): __getitem__ maps indices through old boundaries while len() is live")
     init = ctx.index.func(f"{C}.__init__")
     st = [s for s in ast.walk(init.node) if isinstance(s, (ast.Assign, ast.AnnAssign)) and X.U(s.targets[0] if isinstance(s, ast.Assign) else s.target) == "self.maze_datasets"]
     ok = len(st) == 1 and X.U(st[0].value) == "list(maze_datasets)"
@@ -108,5 +115,5 @@ def rule_Q2(ctx: Ctx) -> None:
 
 RULES = [
     Rule("C16.Q1", rule_Q1, floor=3, doc="index idiom"),
-    Rule("C16.Q2", rule_Q2, floor=8, doc="one source of truth"),
+    Rule("C16.Q2", rule_Q2, floor=10, doc="one source of truth"),
 ]
